@@ -31,10 +31,12 @@ type tInput struct {
 	By     string `json:"by"`
 	Shows  string `json:"shows"`
 	Tamper bool   `json:"tamper"`
+	Pad    int    `json:"pad"`
 }
 type tObs struct {
 	Res  string `json:"res"`
 	Flag bool   `json:"flag"`
+	N    int    `json:"n"`
 	Err  string `json:"err"`
 }
 
@@ -92,6 +94,14 @@ func (Trust) Run(c *orch.Case) *orch.Outcome {
 	switch in.Kind {
 	case "ssoRoot", "ssoAssert":
 		root = b.ResponseEl(genuineRoot())
+		var pads []*etree.Element
+		for i := 0; i < in.Pad; i++ {
+			ps := world.Content("GA2")
+			ps.ID = fmt.Sprintf("_pad-%d", i+1)
+			pe := b.AssertionEl(ps, false)
+			root.AddChild(pe)
+			pads = append(pads, pe)
+		}
 		a := b.AssertionEl(world.Content("GA1"), false)
 		root.AddChild(a)
 		b.Decorate(root)
@@ -99,11 +109,18 @@ func (Trust) Run(c *orch.Case) *orch.Outcome {
 			if in.Kind == "ssoRoot" {
 				mustSign(root, so)
 			} else {
+				for _, pe := range pads {
+					mustSign(pe, so)
+				}
 				mustSign(a, so)
 			}
 		}
 		if in.Tamper {
-			for _, e := range root.FindElements("//NameID") {
+			nids := root.FindElements("//NameID")
+			for i, e := range nids {
+				if in.Pad > 0 && i != len(nids)-1 {
+					continue // only the last assertion is tampered with
+				}
 				e.Child = nil
 				e.SetText("mallory@example.com")
 			}
@@ -163,6 +180,7 @@ func (Trust) Run(c *orch.Case) *orch.Outcome {
 			r, err := sp.ValidateEncodedResponse(enc)
 			o.Res, o.Err = classify(r == nil, err)
 			if o.Res == "accept" {
+				o.N = len(r.Assertions)
 				if in.Kind == "ssoRoot" {
 					o.Flag = r.SignatureValidated
 				} else {
@@ -176,13 +194,13 @@ func (Trust) Run(c *orch.Case) *orch.Outcome {
 			r, err := sp.ValidateEncodedLogoutRequestPOST(enc)
 			o.Res, o.Err = classify(r == nil, err)
 			if o.Res == "accept" {
-				o.Flag = r.SignatureValidated
+				o.Flag, o.N = r.SignatureValidated, 1
 			}
 		case "logoutResp":
 			r, err := sp.ValidateEncodedLogoutResponsePOST(enc)
 			o.Res, o.Err = classify(r == nil, err)
 			if o.Res == "accept" {
-				o.Flag = r.SignatureValidated
+				o.Flag, o.N = r.SignatureValidated, 1
 			}
 		}
 	}()
